@@ -555,7 +555,8 @@ def histories(tier):
 
 
 def tasks(tier):
-    out = [("events", run_events), ("set_backend", run_manager)]
+    from .BK_backend_ops import t_lifecycle       # object creation and _setup: no hidden library-global state
+    out = [("events", run_events), ("set_backend", run_manager), ("backend-lifecycle", t_lifecycle)]
     hs = histories(tier)
     size = 3
     for i in range(0, len(hs), size):
@@ -595,6 +596,9 @@ def replay(r):
     meta = r.get("meta") or {}
     name = r["name"]
     bad = {}
+    if meta.get("lifecycle"):
+        from .BK_backend_ops import replay_lifecycle
+        return replay_lifecycle(r)
     if "history" in meta:
         skel = dict((n, (s, st)) for n, s, st in SKELS)[meta["skeleton"]]
         spec = concretise(skel[0], random.Random(3))
